@@ -35,6 +35,7 @@ class World:
         self.added = []       # job ids in order
         self.log = []
         self.violations = []
+        self.dying = {}       # worker -> (greenlet with a pending kill, its connection handler)
 
     def rebind(self, wq):
         self.wq = wq
@@ -71,8 +72,9 @@ class World:
         nrecv = len(self.received)
 
         def run():
-            snap = conn.rpc_qpull(list(channels))
-            self.received.append((worker, snap, snap.get("done", False), list(channels)))
+            # channels None: the request carried no "channels" argument at all (ServerProxy.qpull())
+            snap = conn.rpc_qpull(list(channels)) if channels is not None else conn.rpc_qpull()
+            self.received.append((worker, snap, snap.get("done", False), list(channels or ())))
         g = gevent.spawn(run)
         self.pulling[worker] = g
         gevent.sleep(0)      # let it run until it returns or blocks
@@ -85,6 +87,26 @@ class World:
     def run_loop(self):
         for _ in range(3):
             gevent.sleep(0)
+            self.reap()
+
+    def reap(self):
+        """finish the disconnects whose kill has been delivered (handle_client's finally: shutdown())"""
+        for worker, (g, conn) in list(self.dying.items()):
+            if g.dead:
+                del self.dying[worker]
+                conn.shutdown()
+
+    def disconnect_async(self, worker):
+        """the reader greenlet saw EOF and scheduled the kill of the handler greenlet; nothing has run yet, so
+        requests of other connections that are ready in the same loop turn are served first"""
+        g = self.pulling.pop(worker, None)
+        conn = self.conns[worker]
+        if g is None or g.dead:
+            return False
+        g.kill(block=False)
+        self.dying[worker] = (g, conn)
+        self.conns[worker] = self.Handler()
+        return True
 
     def finish(self, jobid, error=None):
         for conn in self.conns.values():
@@ -101,6 +123,13 @@ class World:
     def advance(self, dt=100.0):
         self.now[0] += dt
         self.with_clock(self.wq.handletimeouts)
+        # third arm of finish / kill / timeout: every deadline (<= 50 s after the add) has passed now
+        for jid, j in self.wq.id2job.items():
+            if not j.done and self.timeout_violation is None:
+                self.timeout_violation = (f"job {jid!r} (timeout {j.timeout - (self.now[0] - dt):+.0f}s at the time) is still unfinished after "
+                                          f"the clock passed its deadline and handletimeouts ran")
+
+    timeout_violation = None
 
     def disconnect(self, worker):
         g = self.pulling.pop(worker, None)
@@ -125,7 +154,7 @@ class World:
             if ev.ready() and ev.value is j:
                 n += 1
                 where.append("waiter")
-        for w, conn in self.conns.items():
+        for w, conn in list(self.conns.items()) + [(f"{w}(closing)", c) for w, (_, c) in self.dying.items()]:
             k = sum(1 for x in conn.running_jobs.values() if x is j)
             if k:
                 n += k
@@ -146,6 +175,8 @@ class World:
     def check_c17(self):
         if self.order_violation:
             return self.order_violation
+        if self.timeout_violation:
+            return self.timeout_violation
         for worker, snap, was_done, channels in self.received:
             if was_done:
                 return f"worker {worker} received job {snap['jobid']!r} that was already finished (error={snap['error']!r})"
@@ -201,6 +232,8 @@ def apply(world, op):
         world.advance()
     elif kind == "disconnect":
         world.disconnect(op[1])
+    elif kind == "disconnect_async":
+        return world.disconnect_async(op[1])
     elif kind == "readd":
         if op[1] >= len(world.added):
             return False
@@ -215,7 +248,11 @@ def run_history(ops, checks=("c16", "c17"), lenient=False):
     w = World()
     try:
         for i, op in enumerate(ops):
-            if apply(w, op) is False:
+            try:
+                applied = apply(w, op)
+            except Exception:  # noqa: BLE001 - a request that fails is answered with an error; the state it leaves is what is checked
+                applied = True
+            if applied is False:
                 if lenient:
                     continue
                 return None, None     # op not applicable: history pruned
@@ -283,14 +320,19 @@ def search(max_len, checks=("c16", "c17"), budget=200000, seed=0, want=None, ran
                                 skipped.append(f)
                             continue
                         return n, applicable, f, samples
-    if "c16" in checks:
+    if True:   # targeted families, for every oracle
         # targeted families (deeper than the exhaustive bound, small alphabets):
         #  (1) an id that is killed and added again while a worker still holds / has released the old job
         #  (2) a job finished while it is queued BEHIND another one, then pulls
         fams = [([("add", "a", 0), ("pull", 1, ("a",)), ("run",)],
-                 [("kill", 0), ("readd", 0), ("pull", 2, ("a",)), ("run",), ("disconnect", 1), ("disconnect", 2), ("pull", 1, ("a",))], 4),
+                 [("kill", 0), ("readd", 0), ("pull", 2, ("a",)), ("run",), ("disconnect", 1), ("disconnect", 2), ("pull", 1, ("a",)), ("clock",)], 4),
                 ([("add", "a", 0), ("add", "a", 0)],
-                 [("kill", 1), ("kill", 0), ("finish", 1), ("pull", 1, ("a",)), ("pull", 2, ("a",)), ("run",)], 4)]
+                 [("kill", 1), ("kill", 0), ("finish", 1), ("pull", 1, ("a",)), ("pull", 2, ("a",)), ("run",)], 4),
+                # (3) a blocked puller whose connection dies in the same loop turn in which a job arrives; pulls
+                #     that carry no channels argument at all
+                ([],
+                 [("pull", 1, ("a",)), ("pull", 1, None), ("disconnect_async", 1), ("add", "a", 0), ("add", "b", 0), ("run",),
+                  ("pull", 2, ("a",)), ("pull", 2, None), ("finish", 0)], 4)]
         for prefix, alpha, depth in fams:
             for ln in range(1, depth + 1):
                 for tail in itertools.product(alpha, repeat=ln):
